@@ -32,6 +32,7 @@ type LoopSpec struct {
 	Decreases  *Clause
 	Unroll     int
 	Assumes    []*Clause // assumed at the loop head, not checked (listed in evidence)
+	Exits      []*Clause // "exit": proved where the loop is left; the heap written so far is then forgotten except for these facts (a cut)
 }
 
 type ParamDecl struct {
@@ -107,7 +108,7 @@ type ContractSet struct {
 	Files     []string
 }
 
-var clauseRe = regexp.MustCompile(`^(requires|ensures|invariant|decreases|modifies|canary|assume)(\[[^\]]*\])?\s*(.*)$`)
+var clauseRe = regexp.MustCompile(`^(requires|ensures|invariant|decreases|modifies|canary|assume|exit)(\[[^\]]*\])?\s*(.*)$`)
 
 type rawLine struct {
 	text string
@@ -175,7 +176,7 @@ func (cs *ContractSet) parseFile(path string) error {
 	topKw := map[string]bool{"func": true, "spec": true, "ghost": true, "axiom": true, "funcspec": true, "lib": true, "ghostfield": true}
 	clKw := map[string]bool{"requires": true, "ensures": true, "invariant": true, "decreases": true, "modifies": true,
 		"canary": true, "props": true, "inline": true, "trusted": true, "loop": true, "call": true, "implements": true,
-		"unroll": true, "overflow": true, "nooverflow": true, "pure": true, "free": true, "assume": true, "terminates": true, "callassume": true}
+		"unroll": true, "overflow": true, "nooverflow": true, "pure": true, "free": true, "assume": true, "terminates": true, "callassume": true, "exit": true}
 	for _, r := range raws {
 		t := strings.TrimSpace(r.text)
 		if t == "" {
@@ -368,6 +369,11 @@ func (cs *ContractSet) parseFile(path string) error {
 							return fmt.Errorf("%s:%d: decreases outside loop", cl.file, cl.line)
 						}
 						c.Loops[curLoop].Decreases = clause
+					case "exit":
+						if curLoop < 0 {
+							return fmt.Errorf("%s:%d: exit outside loop", cl.file, cl.line)
+						}
+						c.Loops[curLoop].Exits = append(c.Loops[curLoop].Exits, clause)
 					}
 				}
 			}
